@@ -166,11 +166,16 @@ class SimComponent(Component):
         proc = self._proc(case)
         if proc is None:
             raise RuntimeError("description no longer accepted by the loader")
-        hw = implrun.mk_hwprog([(tuple(s), d, c) for s, d, c in case["prog"]])
+        forms = ["list", "tuple", "generator"]
+        hw = implrun.mk_hwprog([(implrun.shaped(s, forms[(k + len(s)) % 3]), d, c)
+                                for k, (s, d, c) in enumerate(case["prog"])])
         encp = implrun.enc_proc(proc)
-        encprog = implrun.enc_hwprog(hw)
+        # the program the model is given is derived from the case, not from the implementation's objects:
+        # HwInstruction must present the sources as a sorted duplicate-free tuple whatever Iterable it got
+        encprog = [[sorted(set(s)), d, c] for s, d, c in case["prog"]]
         out = implrun.run_sim_obj(proc, hw)
-        return [encp, encprog, out], {"proc": encp, "prog": encprog, "out": out}
+        return [encp, encprog, out], {"proc": encp, "prog": encprog, "out": out,
+                                      "hw_normalised": jsonable(implrun.enc_hwprog(hw)) == jsonable(encprog)}
 
     def judge(self, case, impl, res):
         model = res["model"][0]
